@@ -72,6 +72,17 @@ pub fn run(tier: &str, out: &str) -> i32 {
             writeln!(w, "M {} {} {} {}", hex(&s), wsz, m, items.join(",")).unwrap();
         }
     }
+    // uninterrupted clean runs beyond 2^16 and 2^17 bases
+    {
+        let s = crate::iters::clean_run_input();
+        for k in [1usize, 31] {
+            kmer_line(&mut w, &s, k);
+        }
+        for (wsz, m) in [(5usize, 3usize), (40, 28)] {
+            let items: Vec<String> = MinimiserGenerator::new(&s, wsz, m).map(|(v, a, b)| format!("{}:{}:{}", v, a, b)).collect();
+            writeln!(w, "M {} {} {} {}", hex(&s), wsz, m, items.join(",")).unwrap();
+        }
+    }
     // minimiser iterator
     for_each_string(S5, 0, if thorough { 7 } else { 6 }, |s| {
         for wsz in 1..=4usize {
@@ -125,6 +136,17 @@ pub fn run(tier: &str, out: &str) -> i32 {
         let c = CgrComputer::new("-".into(), "-".into(), 16);
         if let Ok(p) = c.verif_vectorise_one(&clean) {
             writeln!(w, "G {} 16 {}", hex(&clean), p.iter().map(|q| format!("{}:{}", bits(q.0), bits(q.1))).collect::<Vec<_>>().join(",")).unwrap();
+        }
+    }
+    // one sequence with more than 2^24 windows, all in one column and spread over three ("OR": unit, length)
+    for unit in [&b"A"[..], b"ACG"] {
+        for (flag, k) in [(1usize, 3usize), (0, 3), (0, 1)] {
+            let n = (1usize << 24) + 9 + k;
+            let s = fill(unit, n);
+            let mut c = OligoComputer::new("-".into(), "-".into(), k);
+            c.set_norm(flag == 1);
+            let v: Vec<String> = c.verif_vectorise_one(&s).iter().map(|x| bits(*x)).collect();
+            writeln!(w, "OR {} {} {} {} {}", hex(unit), n, k, flag, v.join(",")).unwrap();
         }
     }
     // CGR (values and refusals)
